@@ -18,7 +18,7 @@ type C08Case struct {
 }
 
 func genC08(t *rapid.T) C08Case {
-	lim := tierLimits()
+	lim := genLimits(t)
 	var c C08Case
 	type frame struct {
 		f *model.Forest
